@@ -18,7 +18,7 @@ FILES = {
     "src/solvers/stable_semantics_solver.rs": ["C02", "C03", "C01", "C07"],
     "src/solvers/maximal_range_semantics_solvers.rs": ["C02", "C03", "C04", "C07", "C18"],
     "src/solvers/ideal_semantics_solver.rs": ["C02", "C01", "C04", "C07"],
-    "src/solvers/maximal_extension_computer.rs": ["C03", "C01", "C18"],
+    "src/solvers/maximal_extension_computer.rs": ["C03", "C01", "C18", "C08"],
     "src/solvers/grounded_semantics_solver.rs": ["C02", "C03", "C04", "C07"],
     "src/utils/grounded_extension_computer.rs": ["C01", "C11"],
     "src/utils/connected_components_computer.rs": ["C04", "C07", "C11"],
